@@ -575,3 +575,124 @@ def clip_batch(ty, x, lo, hi):
         for (l2, k2, mn) in (minmax('min')(ty, hi, mx) if ty.is_int else fminmax('min')(ty, hi, mx)):
             outs.append(I('min(hi, max(x, lo))', mn))
     return outs
+
+
+# ---------------------------------------------------------------- C16 complex arithmetic: sum-of-products normal form
+from fractions import Fraction as _Fr
+import struct as _struct
+
+
+class NotPoly(Exception):
+    pass
+
+
+def _fconst(bv):
+    w = T.width(bv)
+    v = T.const_val(bv)
+    if w == 32:
+        return _Fr(_struct.unpack('<f', _struct.pack('<I', v))[0])
+    return _Fr(_struct.unpack('<d', _struct.pack('<Q', v))[0])
+
+
+def _padd(p, q, k=1):
+    r = dict(p)
+    for m, c in q.items():
+        r[m] = r.get(m, 0) + k * c
+        if r[m] == 0:
+            del r[m]
+    return r
+
+
+def _pmul(p, q):
+    r = {}
+    for m1, c1 in p.items():
+        for m2, c2 in q.items():
+            m = tuple(sorted(m1 + m2))
+            r[m] = r.get(m, 0) + c1 * c2
+            if r[m] == 0:
+                del r[m]
+    return r
+
+
+def fp_poly(bv, depth=0):
+    """the real polynomial a floating-point lane term denotes when every rounding is erased: fadd/fsub/fmul/fma/fneg
+    over atoms and constants.  (The property allows 'a few ulp, fused or not': which products are fused, in which order
+    the sum is associated and where negations sit is deliberately not distinguished.)"""
+    if depth > 40:
+        raise NotPoly('too deep')
+    bv = T.canon(bv)
+    if T.is_const(bv):
+        try:
+            c = _fconst(bv)
+        except (OverflowError, ValueError):
+            raise NotPoly('non-finite constant')
+        return {(): c} if c != 0 else {}
+    t = T.single_term(bv)
+    if t is None:
+        # a negation is  [x[0:W-1] ++ not x[W-1]]
+        inner = T.fneg(bv)
+        ti = T.single_term(T.canon(inner))
+        if ti is not None:
+            return _padd({}, fp_poly(inner, depth + 1), -1)
+        raise NotPoly('not a single term: %s' % T.fmt(bv, 3)[:120])
+    if t.kind == 'arg':
+        return {((t.name, t.attrs),): _Fr(1)}
+    n = t.name
+    if n == 'fadd':
+        return _padd(fp_poly(t.ops[0], depth + 1), fp_poly(t.ops[1], depth + 1))
+    if n == 'fsub':
+        return _padd(fp_poly(t.ops[0], depth + 1), fp_poly(t.ops[1], depth + 1), -1)
+    if n == 'fmul':
+        return _pmul(fp_poly(t.ops[0], depth + 1), fp_poly(t.ops[1], depth + 1))
+    if n in ('fma', 'fmuladd'):
+        return _padd(_pmul(fp_poly(t.ops[0], depth + 1), fp_poly(t.ops[1], depth + 1)), fp_poly(t.ops[2], depth + 1))
+    raise NotPoly('operator %s' % n)
+
+
+def _atom_poly(x):
+    t = T.single_term(x)
+    return {((t.name, t.attrs),): _Fr(1)}
+
+
+def complex_spec(which, part):
+    """which: add sub mul div neg fma fms fnma fnms norm; part: re | im"""
+    def f(ty, a, b, c=None, d=None, e=None, g=None):
+        A, B = _atom_poly(a), _atom_poly(b)
+        C, D = (_atom_poly(c), _atom_poly(d)) if c is not None else (None, None)
+        Ee, G = (_atom_poly(e), _atom_poly(g)) if e is not None else (None, None)
+        mul_re = lambda: _padd(_pmul(A, C), _pmul(B, D), -1)
+        mul_im = lambda: _padd(_pmul(A, D), _pmul(B, C))
+        den = None
+        if which == 'add':
+            want = _padd(A, C) if part == 're' else _padd(B, D)
+        elif which == 'sub':
+            want = _padd(A, C, -1) if part == 're' else _padd(B, D, -1)
+        elif which == 'neg':
+            want = _padd({}, A, -1) if part == 're' else _padd({}, B, -1)
+        elif which == 'mul':
+            want = mul_re() if part == 're' else mul_im()
+        elif which == 'div':
+            want = _padd(_pmul(A, C), _pmul(B, D)) if part == 're' else _padd(_pmul(B, C), _pmul(A, D), -1)
+            den = _padd(_pmul(C, C), _pmul(D, D))
+        elif which in ('fma', 'fms', 'fnma', 'fnms'):
+            m = mul_re() if part == 're' else mul_im()
+            z = Ee if part == 're' else G
+            sm = -1 if which in ('fnma', 'fnms') else 1
+            sz = -1 if which in ('fms', 'fnms') else 1
+            want = _padd(_padd({}, m, sm), z, sz)
+        elif which == 'norm':
+            want = _padd(_pmul(A, A), _pmul(B, B))
+        else:
+            raise AssertionError(which)
+        return [('__poly__', 'P', (want, den))]
+    return f
+
+
+def cproj(part):
+    def f(ty, a, b):
+        inf = finf(ty)
+        cond = T.or_(T.fcmp('oeq', T.fabs(a), inf), T.fcmp('oeq', T.fabs(b), inf))
+        if part == 're':
+            return [P('isinf(z) ? +inf : re', T.sel(cond, inf, a))]
+        return [P('isinf(z) ? copysign(0, im) : im', T.sel(cond, T.copysign(K(ty, 0), b), b))]
+    return f
